@@ -303,6 +303,92 @@ class D18(Extra):
         return 'ok', None
 
 
+# ---------------------------------------------------------------- C10
+class D10(Extra):
+    RULE = ('dense-time online monitors: past-time (and pastified bounded-future) formulas, a history of 0-3 update() batches, reset() (also twice, also before the '
+            'first update), then 1-3 continuation batches whose time-stamps start again at 0; every post-reset output must equal what a freshly constructed '
+            'monitor returns for the continuation')
+
+    def gen(self, rng, tier):
+        out = []
+        n = 120 if tier == 'quick' else 2000
+        P = ('pred', 'geq', ('var', 0), ('const', 1))
+        base = [P, ('once', P), ('hist', P), ('since', P, ('not', P)), ('oncet', 0, 4, P), ('histt', 2, 4, P), ('sincet', 0, 4, P, ('not', P)),
+                ('and', ('once', P), ('pred', 'leq', ('var', 1), ('const', 2))), ('evt', 0, 4, P)]
+        items = [(f, 2) for f in base]
+        for _ in range(n):
+            nv = rng.choice([1, 2, 2])
+            f = gen_formula(rng, nv, rng.choice([1, 2, 2, 3]), unbounded_future=False, future=(rng.random() < 0.3))
+            if fml.size(f) > 22 or not fml.fvars(f) or (fml.ops(f) & {'untilt'}):
+                continue
+            items.append((f, nv))
+        for (f, nv) in items:
+            nv = need_vars(f, nv)
+            hist = gen_sigs(rng, nv, maxn=6, minn=1)
+            post = gen_sigs(rng, nv, maxn=6, minn=1)
+            out.append({'f': f, 'nv': nv, 'sigs': hist, 'post': post, 'hb': rng.choice([0, 1, 1, 2, 3]), 'pb': rng.choice([1, 1, 2, 3]),
+                        'twice': rng.random() < 0.3, 'n': 0})
+        return out
+
+    def batches(self, f, sigs, k):
+        used = fml.fvars(f)
+        k = max(1, min([k] + [len(sigs[i]) for i in used]))
+        out = []
+        for j in range(k):
+            out.append({i: (len(sigs[i]) * j // k, len(sigs[i]) * (j + 1) // k) for i in used})
+        return out
+
+    def model_lines(self, c):
+        kind = 'pastrhoz' if fml.has_future(c['f']) else 'rhoz'
+        t0, tmax, tmin = domain(c['f'], c['post'])
+        return ['(%s std %s (%s) %d %d)' % (kind, fml.to_sx(c['f']), sigs_sx(c['post']), 0, tmax + 8)]
+
+    def impl_cases(self, c):
+        f = c['f']
+        used = fml.fvars(f)
+        past = fml.has_future(f)
+
+        def ups(sigs, bs):
+            return [['update', [[fml.VARS[i], dense.to_impl(sigs[i][b[i][0]:b[i][1]])] for i in used]] for b in bs]
+        hist = ups(c['sigs'], self.batches(f, c['sigs'], c['hb'])) if c['hb'] > 0 else []
+        post = ups(c['post'], self.batches(f, c['post'], c['pb']))
+        base = {'monitor': 'dense-online', 'vars': fml.VARS[:c['nv']], 'spec': 'out = ' + text(f), 'pastify': past}
+        calls = hist + [['reset']]
+        if c.get('twice'):
+            calls = hist[:1] + [['reset']] + hist[1:] + [['reset']]
+        return [dict(base, calls=calls + post), dict(base, calls=post)]
+
+    def judge(self, c, mlines, ires):
+        if any(l.startswith('ERROR') for l in mlines):
+            return 'model-error', mlines
+        if not all(dense.dn_exact(l) for l in mlines):
+            return 'dropped', None
+        a, b = ires
+        det = {'spec': 'out = ' + text(c['f']), 'pastified': fml.has_future(c['f']), 'history_ticks': c['sigs'], 'continuation_ticks': c['post'],
+               'history_batches': c['hb'], 'reset_twice': bool(c.get('twice')), 'tick_s': dense.SCALE}
+        for i in (a, b):
+            if i['setup']['status'] != 'ok':
+                return 'violation', dict(det, observed=i['setup'])
+        for r in b['calls']:
+            if r['status'] != 'ok':
+                return 'dropped', None      # the fresh monitor itself fails: not a reset question (C05 / C17)
+        npost = len(b['calls'])
+        nreset = 2 if c.get('twice') else 1
+        for k, r in enumerate(a['calls']):
+            if r['status'] != 'ok':
+                if k < len(a['calls']) - npost and r.get('status') == 'rtamt' and 'reset' not in str(r):
+                    # an update() of the history fails by itself (e.g. KF-C05-const-binary): not a reset question
+                    hist_idx = [j for j, cc in enumerate(self.impl_cases(c)[0]['calls']) if cc[0] == 'update'][:len(a['calls']) - npost - nreset]
+                    if k in hist_idx:
+                        return 'dropped', None
+                return 'violation', dict(det, expected='every call returns', observed=r)
+        post = [r['value'] for r in a['calls'][-npost:]]
+        fresh = [r['value'] for r in b['calls']]
+        if post != fresh:
+            return 'violation', dict(det, expected={'fresh monitor': fresh}, observed={'after reset': post})
+        return 'ok', None
+
+
 # ---------------------------------------------------------------- plug-in
 def extend(cls, extra):
     """A subclass of the discrete-time check `cls` that also runs the dense-time case stream `extra`."""
